@@ -72,6 +72,36 @@ func probeDefaultPtr() *probeConf {
 	return &c
 }
 
+// probeCopy: the config as it was received (own map, own pointer)
+func probeCopy(c probeConf) probeConf {
+	if c.Tags != nil {
+		t := make(map[string]string, len(c.Tags))
+		for k, v := range c.Tags {
+			t[k] = v
+		}
+		c.Tags = t
+	}
+	if c.Sub != nil {
+		sub := *c.Sub
+		c.Sub = &sub
+	}
+	return c
+}
+
+func probeScribble(c *probeConf) {
+	c.N += 1000
+	c.Name += "!"
+	c.Wait += time.Hour
+	c.On = !c.On
+	if c.Tags != nil {
+		c.Tags["scribbled"] = "x"
+	}
+	if c.Sub != nil {
+		c.Sub.Level += 1000
+		c.Sub.Label += "!"
+	}
+}
+
 var probeIface = reflect.TypeOf((*c17Probe)(nil)).Elem()
 
 func registerProbes() {
@@ -79,6 +109,19 @@ func registerProbes() {
 	plugin.Register(probeIface, "pptr", func(conf *probeConf) (c17Probe, error) { return &probeInst{byPtr: conf}, nil }, probeDefaultPtr)
 	plugin.Register(probeIface, "pzero", func(conf probeConf) c17Probe { return &probeInst{byValue: conf} })
 	plugin.Register(probeIface, "pnone", func() c17Probe { return &probeInst{none: true} })
+	// round 4: components that, like many real ones, normalise the config they were given IN PLACE after reading it
+	// (pointer config; struct config whose map / pointer fields are shared references): an instance built later from a
+	// config object the registry hands out a second time would see the scribbling of the earlier instance
+	plugin.Register(probeIface, "pmut", func(conf *probeConf) c17Probe {
+		inst := &probeInst{byValue: probeCopy(*conf)}
+		probeScribble(conf)
+		return inst
+	}, probeDefaultPtr)
+	plugin.Register(probeIface, "pmutv", func(conf probeConf) (c17Probe, error) {
+		inst := &probeInst{byValue: probeCopy(conf)}
+		probeScribble(&conf)
+		return inst, nil
+	}, probeDefault)
 	// newFactory-style: the config is filled when the factory is created; every call builds from that one config
 	plugin.Register(probeIface, "pfac", func(conf probeConf) func() (c17Probe, error) {
 		return func() (c17Probe, error) { return &probeInst{byValue: conf}, nil }
@@ -99,7 +142,7 @@ type probeSlot struct {
 	New func() (c17Probe, error) `config:"new"`
 }
 
-const probeCalls = 2
+const probeCalls = 3 // round 4: three calls (right for two, wrong from the third)
 
 // probeDval: what a probe position holds (dval of schema.go calls this for positions of the probe interface)
 // nesting of probe instances while one value is printed (probe cases run one at a time, see probeMu): a tree that shares
@@ -250,7 +293,7 @@ func probeBlock(name string, given map[string]any) map[string]any {
 	return m
 }
 
-var probeNames = []string{"pstruct", "pptr", "pzero", "pnone", "pfac"}
+var probeNames = []string{"pstruct", "pptr", "pzero", "pnone", "pfac", "pmut", "pmutv"}
 
 func instCases(r *rand.Rand, tier string) []gcase {
 	var out []gcase
@@ -269,10 +312,12 @@ func instCases(r *rand.Rand, tier string) []gcase {
 		// a factory: every call builds from the given options over fresh defaults
 		cfg2 := map[string]any{"make": probeBlock(name, g)}
 		ws := append(probeWants("Make.#0", name, g), probeWants("Make.#1", name, g)...)
+		ws = append(ws, probeWants("Make.#2", name, g)...)
 		add("factory-calls("+name+")", cfg2, ws)
 		cfg3 := map[string]any{"one": probeBlock(name, g), "make": probeBlock(name, nil), "make1": probeBlock(name, nil)}
 		ws3 := append(probeWants("Make.#0", name, nil), probeWants("Make.#1", name, nil)...)
 		ws3 = append(ws3, probeWants("Make1.#1", name, nil)...)
+		ws3 = append(ws3, probeWants("Make1.#2", name, nil)...)
 		add("factory-after-instance("+name+")", cfg3, append(ws3, probeWants("One", name, g)...))
 		// a list of slots, every one with its own factory of the same plugin
 		g2 := map[string]any{"name": "third"}
@@ -287,6 +332,7 @@ func instCases(r *rand.Rand, tier string) []gcase {
 		ws4 := append(probeWants("Slots.#0.New.#1", name, g), probeWants("Slots.#1.New.#0", name, nil)...)
 		ws4 = append(ws4, probeWants("Slots.#1.New.#1", name, nil)...)
 		ws4 = append(ws4, probeWants("Slots.#2.New.#1", name, g2)...)
+		ws4 = append(ws4, probeWants("Slots.#0.New.#2", name, g)...)
 		add("slots("+name+")", cfg4, ws4)
 		// a nested instance of the same plugin inside the config of the outer one
 		if name != "pnone" {
